@@ -224,7 +224,7 @@ impl<'a> TyVisitorField for VField<'a> {
     type Out = Verdict;
     fn visit<T>(self, dims: &[usize]) -> Verdict
     where
-        T: Ty + DualNum<<T as Ty>::F> + PartialOrd + nalgebra::RealField,
+        T: Ty + DualNum<<T as Ty>::F> + PartialOrd + nalgebra::RealField + nalgebra::SimdValue<Element = T, SimdBool = bool>,
         <T as Ty>::F: nalgebra::RealField,
     {
         let case = self.case;
